@@ -3,38 +3,82 @@ CHECK = {
     "harness": "h-c08",
     "translators": ["c08_params"],
     "level": "proof",
-    "technique": "Lean 4 proofs over an executable model + generated parameter tables + structural correspondence on real circuits",
+    "technique": "Lean 4 proofs over an executable model + generated parameter tables + structural correspondence on real "
+                 "circuits, real keys and real proofs (KZG, ParamsKZG::unsafe_setup)",
     "rule": "one case per (value, entry point) pair: the real off-circuit encoder on the value, and the real circuit "
-            "exposing it (zk_stdlib Relation / verifier-gadget circuit) run through the mock prover; distinctness by "
-            "hash of the request line (type, entry point, value)",
+            "exposing it (zk_stdlib Relation / verifier-gadget circuit) run through the mock prover; one case per "
+            "(relation, raw instance vector, proof origin) triple for the verifier's count check; distinctness by "
+            "hash of the request line (type, entry point, value / steps, vectors)",
     "explanation": "Lean theorems: every encoder (bit, byte, native, emulated field, foreign point with identity flag, "
                    "Jubjub point/scalar, BigUint(nb), vk identity, MSM, accumulator, IR bytes) is injective under the "
                    "type's well-formedness, has a type-determined length, the in-circuit exposure of an honestly "
-                   "assigned value binds exactly the encoding, and the instance-row counter stored in the verifying key "
-                   "equals the length of format_instance; the limb parameters and moduli are regenerated from the Rust "
-                   "sources on every run and their side conditions re-proved by kernel evaluation. Correspondence: the "
-                   "model's encoders vs Instantiable::as_public_input on boundary values; for every value and entry point "
-                   "the compiled circuit's copy constraints onto the instance columns (read off the mock prover's "
-                   "permutation) must be rows 0..len tied to cells holding the encoding, encode(v) must satisfy the "
-                   "circuit and every single-position edit must be rejected; relations exposing 0..40 mixed inputs: "
-                   "nb_public_inputs written into the serialized MidnightVK = format_instance length, honest proofs "
-                   "verify, raw vectors of any other length are rejected",
+                   "assigned value binds exactly the encoding (for Jubjub scalars: an exact if-and-only-if in the "
+                   "bit-vector length, and for every length the bound cells are the encoding followed by zero rows), "
+                   "the instance-row counter stored in the verifying key equals the length of format_instance, and "
+                   "the length checks of zk_stdlib::verify / batch_verify accept a raw vector only if its length is "
+                   "that recorded count = the sum of the type-determined lengths (verifier_insists_on_count, "
+                   "batch_verifier_insists_on_count, verify_ok_iff); why the comparison must be exact is proved too "
+                   "(instance_zero_padding, exact_count_needed: the PLONK layer cannot tell a vector from the same "
+                   "vector followed by zeros, the weaker check of seeded defect C08-2 lets two distinct vectors "
+                   "through). The limb parameters and moduli are regenerated from the Rust sources on every run and "
+                   "their side conditions re-proved by kernel evaluation. Correspondence: the model's encoders vs "
+                   "Instantiable::as_public_input on boundary values; for every value and entry point (assign + "
+                   "constrain_as_public_input, assign_as_public_input, committed column, constants, and values that "
+                   "are the RESULT of in-circuit arithmetic: chains of lazy sums, products then sums, linear "
+                   "combinations, negations for each emulated field; negation, one and two complete additions for "
+                   "each curve; BigUint arithmetic through ZKIR) the compiled circuit's copy constraints onto the "
+                   "instance columns (read off the mock prover's permutation) must be rows 0..len tied to cells "
+                   "holding the encoding, encode(v) must satisfy the circuit and every single-position edit must be "
+                   "rejected; relations exposing 0..40 mixed inputs: nb_public_inputs written into the serialized "
+                   "MidnightVK = format_instance length; real keygen/prove/verify for relations exposing 0..N values "
+                   "of mixed types with raw vectors of length nb-1 (trailing value zero and non-zero, also all "
+                   "trailing zeros stripped), nb, nb with the last element edited, nb+1 (0 and 1 appended), each "
+                   "with the honest proof AND with a proof produced by a prover running the protocol on that very "
+                   "vector, through verify, batch_verify and the PLONK verifier without the zk_stdlib check: only "
+                   "the exact vector is accepted by both entry points, although the PLONK layer alone accepts the "
+                   "zero-truncated and zero-extended ones",
+    # Every `Instantiable` / `PublicInputInstructions` / `CommittedInstanceInstructions` impl of circuits/, zk_stdlib
+    # and the IR value types of zkir (publish.rs).
+    # columns: type | impls (file:line at the pinned commit) | encode_injective | exposure theorem | trace tie (paths)
+    "coverage_table": [
+        "AssignedBit | native_chip.rs:1033 Instantiable, :713 + native_gadget.rs:1087 PublicInput, native_gadget.rs:547 Committed | encode_injective (Val.bit) | cells_eq_encode + expose_binds | c,a,f,m",
+        "AssignedByte | native_gadget.rs:114, :508, :547 | encode_injective (Val.byte) | cells_eq_encode + expose_binds | c,a,f,m",
+        "AssignedNative | utils/types.rs:64, native_chip.rs:623/:658, native_gadget.rs:1020/:547 | encode_injective (Val.native) | cells_eq_encode + expose_binds | c,a,f,m,d0",
+        "AssignedField<F,K,P> | field_chip.rs:124, :488 | encode_injective_field, decode_encode_field; typed for secp_base, secp_scalar, bls_base, bn_base, c25519_base, c25519_scalar (params_sound) | cells_eq_encode (normalize assumed: C05) | secp_base/secp_scalar/bls_base: c,a,f,d0..d4 (after add_constant, neg, sum chain, mul+add+sub, linear combination); c25519_*: encoder only; bn_base: translator table + theorem only (the impl is behind the circuits feature dev-curves, which the harness does not enable)",
+        "AssignedForeignPoint<F,C,B> | ecc_chip.rs:180, :319 | encode_injective_point (identity flag) | expose_point_agrees | secp256k1, BLS12-381 G1: c,a,f,d0 (negate), d1 (add), d2 (two adds; computed identity)",
+        "AssignedNativePoint<Jubjub> | edwards_chip.rs:87, :825 | encode_injective (Val.jpoint) | cells_eq_encode | c,a,f,d0,d1,d2",
+        "AssignedScalarOfNativeCurve<Jubjub> | edwards_chip.rs:119, :864 | encode_injective_jscalar | jscalar_expose_agrees_iff, cells_eq_encode_jscalar, jscalar_long_satisfied_but_miscounted (finding jscalar-exposure:bits>252) | c,a,f,d0 (convert),d1,d31,d32,d64 (scalar_from_le_bytes)",
+        "AssignedBigUint (nb_bits) | biguint/types.rs:91, biguint_gadget.rs:322 | encode_injective_biguint, encode_biguint_total | biguint_expose_agrees, biguint_derived_bound_count, biguint_declared_bound_checked | encoder: 0..11 limbs (quick), ..43 (thorough); exposure c,f,d0 (from_le_bytes): 1..3 limbs (quick), 1..5 (thorough); after add/mul/sub/modexp through ZKIR programs; declared-bound guard (biguint_declared_bound_checked) on 39 (assigned, declared) pairs",
+        "AssignedVk | verifier/mod.rs:87, verifier_gadget.rs:88 | assumption (collision resistance of transcript_repr); two keys compared | cells = [repr] (model), expose_binds | assign_vk_as_public_input on two real keys",
+        "AssignedMsm | verifier/msm.rs:210 (+ constrain_as_public_input, with_committed_scalars) | encode_injective_msm (fixed shape) | expose_accumulator_agrees | off-circuit on many shapes; in-circuit as part of accumulators",
+        "AssignedAccumulator | verifier/accumulator.rs:195, verifier_gadget.rs:121 | encode_injective_accumulator, accumulator_committed_split | expose_accumulator_agrees (plain and committed scalars) | VerifierGadget circuits, plain and committed column",
+        "ZkStdLib (dispatch) | zk_stdlib/src/lib.rs:861, :892 | n/a | n/a | every case above goes through it",
+        "IR values (Bool, Bytes, Native, BigUint, JubjubPoint, JubjubScalar) | zkir publish.rs: CircuitValue::as_public_input, publish_incircuit | encode_injective (Val.bytes etc.) | cells_eq_encode | ZKIR programs: loaded, constant, computed, converted values",
+        "FakePoint<C> | aggregator/src/light_self_emulation.rs:39, :138 | NOT COVERED (test-only mock type of the aggregator, not in the property's anchors) | - | -",
+    ],
     "trusted_base": [
         "gadget-level soundness of assign / normalize / linear_combination / range checks (properties C04-C06) is "
         "assumed at the cell level: the model takes the honest in-circuit representation of a value as given",
         "moduli of fields defined outside /repo (k256, bn256, curve25519 scalar) are constants of the model, compared "
         "with the running code on every run",
+        "verify_ok_iff models the PLONK verifier as: accepts iff the transcripts absorb the same (length, values) and "
+        "the zero-padded instance satisfies the copy constraints; the accepting direction is observed on every run "
+        "(also without the zk_stdlib check), the rejecting direction is the soundness of the proof system (C01-C03)",
     ],
     "assumptions": [
         "distinct verifying keys have distinct transcript_repr (collision resistance of the key hash)",
         "MSM/accumulator injectivity is for a fixed shape (number of terms, fixed-base names), which the circuit fixes",
     ],
-    "level_text": "Kernel-checked Lean theorems about an executable model of every public-input encoder and of the "
-                  "in-circuit exposure with its instance-row counter, over parameter tables regenerated from the Rust "
-                  "sources; the model and the property's oracle are checked against the real encoders, the real "
-                  "compiled circuits and real verifying keys on every run",
-    "level_note": "Trusted: Lean kernel, the translator, the correspondence harness and driver. The theorem "
-                  "cells_eq_encode is partial for Jubjub scalars (bit vectors of at most 254 bits): longer vectors are "
-                  "the recorded finding jscalar-exposure:bits>252, whose negation is proved with a concrete witness",
+    "level_text": "Kernel-checked Lean theorems about an executable model of every public-input encoder, of the "
+                  "in-circuit exposure with its instance-row counter and of the verifier's length checks, over "
+                  "parameter tables regenerated from the Rust sources; the model and the property's oracle are "
+                  "checked against the real encoders, the real compiled circuits, real verifying keys and real "
+                  "proofs (verify and batch_verify) on every run",
+    "level_note": "Trusted: Lean kernel, the translator, the correspondence harness and driver. Jubjub scalars: the "
+                  "agreement theorem is an exact characterisation (bit vectors of at most 254 bits agree, longer ones "
+                  "bind the encoding followed by zero rows and are miscounted): the recorded finding "
+                  "jscalar-exposure:bits>252, proved with a concrete witness. The count theorems are tied to "
+                  "zk_stdlib::verify / batch_verify by real proofs for every length variant; the correspondence is "
+                  "deliberately tight on the error class (InvalidInstances before any PLONK work)",
     "timeout": {"quick": 900, "thorough": 3600, "search": 900},
 }
